@@ -36,3 +36,271 @@ Proof.
         repeat (destruct p as [p|p|]; try reflexivity). congruence. }
       rewrite Hm in H. eapply dict_get_core_no_funnelled; [|exact H]. discriminate.
 Qed.
+
+(* ---- one resolver step on a key / on an index ------------------------------------------ *)
+Definition plain_key (k : pstr) : Prop :=
+  k <> [] /\ pstr_eqb k s_dotdot = false /\ pstr_eqb k s_star = false.
+Definition plain_idx (si : pstr) : Prop :=
+  si <> [] /\ pstr_eqb si s_new = false /\ pstr_eqb si s_star = false.
+
+Lemma find_key_step rl f root x rest par c kvs fstr k child :
+  split_name_index x = Ok (k, IdxNone) -> plain_key k -> lookup k kvs = Some child ->
+  find true rl (S f) root (x :: rest) par (Dict c kvs) fstr =
+  match rest with
+  | [] => Ok (root, false, mkF par (Dict c kvs) (Some k) (Some child) (sl fstr k) None)
+  | _ => find true rl f root rest (child_key par k) child (sl fstr k)
+  end.
+Proof.
+  intros Hs [Hne [Hdd Hst]] Hl. cbn [find]. rewrite Hs. cbn [bind].
+  destruct k as [|k0 k1]; [congruence|]. cbn [nonempty negb andb idx_truthy].
+  rewrite Hdd. cbn [is_list]. rewrite Hst, Hl. destruct rest; reflexivity.
+Qed.
+
+Lemma find_idx_step rl f root x rest par c items fstr si z i child :
+  split_name_index x = Ok ([], IdxStr si) -> plain_idx si -> n0eval si = EvInt z ->
+  norm_idx (length items) z = Some i -> nth_error items i = Some child ->
+  find true rl (S f) root (x :: rest) par (Lst c items) fstr =
+  match rest with
+  | [] => Ok (root, false, mkF par (Lst c items) (Some (br (dec_of_Z z))) (Some child) fstr None)
+  | _ => find true rl f root rest (child_idx par i) child (fstr ++ br (dec_of_Z z))
+  end.
+Proof.
+  intros Hs [Hne [Hnew Hst]] He Hn Hc. cbn [find]. rewrite Hs. cbn [bind].
+  destruct si as [|s0 s1]; [congruence|]. cbn [nonempty negb andb idx_truthy].
+  rewrite Hnew, Hst. cbn [wrap_parent]. rewrite He, Hn, Hc. destruct rest; reflexivity.
+Qed.
+
+Lemma find_keyidx_step rl f root x rest par c kvs fstr k si child :
+  split_name_index x = Ok (k, IdxStr si) -> plain_key k -> si <> [] -> lookup k kvs = Some child ->
+  find true rl (S f) root (x :: rest) par (Dict c kvs) fstr =
+  find true rl f root (br si :: rest) (child_key par k) child (sl fstr k).
+Proof.
+  intros Hs [Hne [Hdd Hst]] Hsi Hl. cbn [find]. rewrite Hs. cbn [bind].
+  destruct k as [|k0 k1]; [congruence|]. cbn [nonempty negb andb idx_truthy].
+  rewrite Hdd. cbn [is_list]. rewrite Hst, Hl. destruct rest; reflexivity.
+Qed.
+
+Lemma sni_none_self x k : split_name_index x = Ok (k, IdxNone) -> k = x.
+Proof.
+  unfold split_name_index, bind. intros H.
+  repeat match type of H with
+         | context [match ?d with _ => _ end] => destruct d eqn:?; try discriminate H
+         | context [if ?d then _ else _] => destruct d eqn:?; try discriminate H
+         end.
+  all: try (inversion H; reflexivity).
+Qed.
+
+(* ---- the walk a token list denotes -------------------------------------------------------- *)
+Inductive walk : tree -> list pstr -> path -> tree -> Prop :=
+| walk_nil t : walk t [] [] t
+| walk_key x toks c kvs k child p v :
+    split_name_index x = Ok (k, IdxNone) -> plain_key k -> lookup k kvs = Some child ->
+    walk child toks p v -> walk (Dict c kvs) (x :: toks) (PKey k :: p) v
+| walk_idx x toks c items si z i child p v :
+    split_name_index x = Ok ([], IdxStr si) -> plain_idx si -> n0eval si = EvInt z ->
+    norm_idx (length items) z = Some i -> nth_error items i = Some child ->
+    walk child toks p v -> walk (Lst c items) (x :: toks) (PIdx i :: p) v
+| walk_keyidx x toks c kvs k si c' items z i child p v :
+    split_name_index x = Ok (k, IdxStr si) -> plain_key k -> plain_idx si ->
+    split_name_index (br si) = Ok ([], IdxStr si) -> n0eval si = EvInt z ->
+    lookup k kvs = Some (Lst c' items) ->
+    norm_idx (length items) z = Some i -> nth_error items i = Some child ->
+    walk child toks p v -> walk (Dict c kvs) (x :: toks) (PKey k :: PIdx i :: p) v.
+
+Lemma walk_resolve t toks p v : walk t toks p v -> resolve t p = Some v.
+Proof.
+  induction 1 as [t|x toks c kvs k child p v Hs Hk Hl Hw IH
+                  |x toks c items si z i child p v Hs Hi He Hn Hc Hw IH
+                  |x toks c kvs k si c' items z i child p v Hs Hk Hi Hb He Hl Hn Hc Hw IH]; cbn [resolve].
+  - reflexivity.
+  - now rewrite Hl.
+  - now rewrite Hc.
+  - rewrite Hl. cbn [resolve]. now rewrite Hc.
+Qed.
+
+(* what the returned (parent, slot) pair says about the addressed node *)
+Definition slot_names (parv : tree) (slot : pstr) (last : pstep) : Prop :=
+  match last with
+  | PKey k => exists c kvs u, parv = Dict c kvs /\ slot = k /\ split_name_index k = Ok (k, IdxNone) /\
+                              lookup k kvs = Some u
+  | PIdx i => exists c items z u, parv = Lst c items /\ slot = br (dec_of_Z z) /\
+                                  norm_idx (length items) z = Some i /\ nth_error items i = Some u
+  end.
+
+Definition found_at (sub : tree) (pos : path) (p : path) (v : tree) (F : found) : Prop :=
+  exists q last slot,
+    p = q ++ [last] /\ f_par F = PAt (pos ++ q) /\ resolve sub q = Some (f_parv F) /\
+    f_slot F = Some slot /\ slot_names (f_parv F) slot last /\
+    f_val F = Some v /\ f_rest F = None.
+
+Lemma found_at_cons sub pos st p v F child :
+  resolve sub [st] = Some child ->
+  found_at child (pos ++ [st]) p v F -> found_at sub pos (st :: p) v F.
+Proof.
+  intros Hr [q [last [slot [Hp [Hpar [Hres [Hsl [Hsn [Hv Hrest]]]]]]]]].
+  exists (st :: q), last, slot. repeat split; auto.
+  - now rewrite Hp.
+  - now rewrite Hpar, <- app_assoc.
+  - change (st :: q) with ([st] ++ q). rewrite resolve_app, Hr. exact Hres.
+Qed.
+
+Theorem find_walk rl : forall sub toks p v, walk sub toks p v -> toks <> [] ->
+  forall fuel root pos fstr, 2 * length toks <= fuel ->
+  exists F, find true rl fuel root toks (PAt pos) sub fstr = Ok (root, false, F) /\ found_at sub pos p v F.
+Proof.
+  induction 1 as [t|x toks c kvs k child p v Hs Hk Hl Hw IH
+                  |x toks c items si z i child p v Hs Hi He Hn Hc Hw IH
+                  |x toks c kvs k si c' items z i child p v Hs Hk Hi Hb He Hl Hn Hc Hw IH];
+    intros Hne fuel root pos fstr Hf.
+  - congruence.
+  - destruct fuel as [|f]; [cbn in Hf; lia|].
+    rewrite (find_key_step rl f root x toks (PAt pos) c kvs fstr k child Hs Hk Hl).
+    destruct toks as [|y toks'].
+    + inversion Hw; subst. eexists. split; [reflexivity|].
+      exists [], (PKey k), k. cbn. rewrite app_nil_r. repeat split; auto.
+      exists c, kvs, v. repeat split; auto. now rewrite (sni_none_self _ _ Hs) in Hs |- *.
+    + destruct (IH ltac:(congruence) f root (pos ++ [PKey k]) (sl fstr k)) as [F [HF Hat]]; [cbn in *; lia|].
+      exists F. split; [exact HF|]. eapply found_at_cons; [|exact Hat]. cbn. now rewrite Hl.
+  - destruct fuel as [|f]; [cbn in Hf; lia|].
+    rewrite (find_idx_step rl f root x toks (PAt pos) c items fstr si z i child Hs Hi He Hn Hc).
+    destruct toks as [|y toks'].
+    + inversion Hw; subst. eexists. split; [reflexivity|].
+      exists [], (PIdx i), (br (dec_of_Z z)). cbn. rewrite app_nil_r. repeat split; auto.
+      exists c, items, z, v. auto.
+    + destruct (IH ltac:(congruence) f root (pos ++ [PIdx i]) (fstr ++ br (dec_of_Z z))) as [F [HF Hat]]; [cbn in *; lia|].
+      exists F. split; [exact HF|]. eapply found_at_cons; [|exact Hat]. cbn. now rewrite Hc.
+  - destruct fuel as [|f]; [cbn in Hf; lia|].
+    destruct Hi as [Hsine Hi'].
+    rewrite (find_keyidx_step rl f root x toks (PAt pos) c kvs fstr k si (Lst c' items) Hs Hk Hsine Hl).
+    destruct f as [|f]; [cbn in Hf; lia|].
+    cbn [child_key].
+    rewrite (find_idx_step rl f root (br si) toks (PAt (pos ++ [PKey k])) c' items (sl fstr k) si z i child Hb
+               (conj Hsine Hi') He Hn Hc).
+    destruct toks as [|y toks'].
+    + inversion Hw; subst. eexists. split; [reflexivity|].
+      exists [PKey k], (PIdx i), (br (dec_of_Z z)). cbn. rewrite Hl. repeat split; auto.
+      exists c', items, z, v. auto.
+    + cbn [child_idx].
+      destruct (IH ltac:(congruence) f root ((pos ++ [PKey k]) ++ [PIdx i]) (sl fstr k ++ br (dec_of_Z z))) as [F [HF Hat]];
+        [cbn in *; lia|].
+      exists F. split; [exact HF|].
+      eapply found_at_cons; [cbn; rewrite Hl; reflexivity|].
+      eapply found_at_cons; [|exact Hat]. cbn. now rewrite Hc.
+Qed.
+
+(* ---- a walk followed by further steps -------------------------------------------------------- *)
+Theorem find_walk_prefix rl : forall sub toks p v, walk sub toks p v ->
+  forall rest, rest <> [] ->
+  forall fuel root pos fstr, 2 * length toks <= fuel ->
+  exists fstr' fuel', fuel <= fuel' + 2 * length toks /\ fuel' <= fuel /\
+    find true rl fuel root (toks ++ rest) (PAt pos) sub fstr =
+    find true rl fuel' root rest (PAt (pos ++ p)) v fstr'.
+Proof.
+  induction 1 as [t|x toks c kvs k child p v Hs Hk Hl Hw IH
+                  |x toks c items si z i child p v Hs Hi He Hn Hc Hw IH
+                  |x toks c kvs k si c' items z i child p v Hs Hk Hi Hb He Hl Hn Hc Hw IH];
+    intros rest Hrest fuel root pos fstr Hf.
+  - exists fstr, fuel. cbn. rewrite app_nil_r. repeat split; lia.
+  - destruct fuel as [|f]; [cbn in Hf; lia|]. cbn [app].
+    rewrite (find_key_step rl f root x (toks ++ rest) (PAt pos) c kvs fstr k child Hs Hk Hl).
+    destruct (toks ++ rest) eqn:E; [destruct toks; cbn in E; congruence|]. rewrite <- E.
+    destruct (IH rest Hrest f root (pos ++ [PKey k]) (sl fstr k)) as [fstr' [fuel' [H1 [H2 H3]]]]; [cbn in *; lia|].
+    exists fstr', fuel'. cbn [child_key]. rewrite H3, <- app_assoc. cbn in *. repeat split; lia.
+  - destruct fuel as [|f]; [cbn in Hf; lia|]. cbn [app].
+    rewrite (find_idx_step rl f root x (toks ++ rest) (PAt pos) c items fstr si z i child Hs Hi He Hn Hc).
+    destruct (toks ++ rest) eqn:E; [destruct toks; cbn in E; congruence|]. rewrite <- E.
+    destruct (IH rest Hrest f root (pos ++ [PIdx i]) (fstr ++ br (dec_of_Z z))) as [fstr' [fuel' [H1 [H2 H3]]]]; [cbn in *; lia|].
+    exists fstr', fuel'. cbn [child_idx]. rewrite H3, <- app_assoc. cbn in *. repeat split; lia.
+  - destruct fuel as [|f]; [cbn in Hf; lia|]. cbn [app].
+    destruct Hi as [Hsine Hi'].
+    rewrite (find_keyidx_step rl f root x (toks ++ rest) (PAt pos) c kvs fstr k si (Lst c' items) Hs Hk Hsine Hl).
+    destruct f as [|f]; [cbn in Hf; lia|]. cbn [child_key].
+    rewrite (find_idx_step rl f root (br si) (toks ++ rest) (PAt (pos ++ [PKey k])) c' items (sl fstr k) si z i child Hb
+               (conj Hsine Hi') He Hn Hc).
+    destruct (toks ++ rest) eqn:E; [destruct toks; cbn in E; congruence|]. rewrite <- E.
+    destruct (IH rest Hrest f root ((pos ++ [PKey k]) ++ [PIdx i]) (sl fstr k ++ br (dec_of_Z z))) as [fstr' [fuel' [H1 [H2 H3]]]];
+      [cbn in *; lia|].
+    exists fstr', fuel'. cbn [child_idx]. rewrite H3, <- !app_assoc. cbn in *. repeat split; lia.
+Qed.
+
+(* ---- misses: an index out of range, an unknown key ------------------------------------------- *)
+Lemma find_idx_oob rl f root x rest par c items fstr si z :
+  split_name_index x = Ok ([], IdxStr si) -> plain_idx si -> n0eval si = EvInt z ->
+  norm_idx (length items) z = None ->
+  find true rl (S f) root (x :: rest) par (Lst c items) fstr =
+  Ok (root, false, mkF par (Lst c items) (Some (br (dec_of_Z z))) None fstr (Some (x :: rest))).
+Proof.
+  intros Hs [Hne [Hnew Hst]] He Hn. cbn [find]. rewrite Hs. cbn [bind].
+  destruct si as [|s0 s1]; [congruence|]. cbn [nonempty negb andb idx_truthy].
+  rewrite Hnew, Hst. cbn [wrap_parent]. now rewrite He, Hn.
+Qed.
+
+Lemma find_key_missing rl f root x rest par c kvs fstr k ix :
+  split_name_index x = Ok (k, ix) -> plain_key k -> lookup k kvs = None ->
+  find true rl (S f) root (x :: rest) par (Dict c kvs) fstr =
+  Ok (root, false, mkF par (Dict c kvs) None None fstr (Some (x :: rest))).
+Proof.
+  intros Hs [Hne [Hdd Hst]] Hl. cbn [find]. rewrite Hs. cbn [bind].
+  destruct k as [|k0 k1]; [congruence|]. cbn [nonempty negb andb].
+  rewrite Hdd. cbn [is_list]. now rewrite Hst, Hl.
+Qed.
+
+(* ---- purity: the tree a lookup returns differs from its input only if the [new()] branch ran;
+        that branch raises the "mutated" flag ------------------------------------------------------- *)
+Lemma loop_result_root_irrelevant : True.
+Proof. exact I. Qed.
+
+Ltac step_in H :=
+  match type of H with
+  | context [match ?d with _ => _ end] => destruct d eqn:?
+  | context [if ?d then _ else _] => destruct d eqn:?
+  end.
+
+Theorem find_unmutated rl : forall fuel root xs par parv fstr root' m F,
+  find true rl fuel root xs par parv fstr = Ok (root', m, F) -> m = false -> root' = root.
+Proof.
+  induction fuel as [|f IH]; intros root xs par parv fstr root' m F H Hm; [discriminate H|].
+  cbn [find] in H. unfold bind in H.
+  repeat (step_in H; try discriminate H).
+  all: try (inversion H; subst; reflexivity).
+  all: try (eapply IH; eassumption).
+  all: try (inversion H; subst; discriminate).
+  all: inversion H; subst;
+       repeat match goal with Hb : _ || _ = false |- _ => apply orb_false_iff in Hb; destruct Hb; subst end;
+       repeat match goal with
+              | Hf : find _ _ _ ?r _ _ _ _ = Ok (?r', false, _) |- _ =>
+                let E := fresh in assert (E : r' = r) by (eapply IH; [exact Hf|reflexivity]); subst; clear Hf
+              end;
+       try reflexivity.
+Qed.
+
+Theorem lfind_unmutated rl : forall fuel root xs par parv fstr root' m F,
+  lfind rl fuel root xs par parv fstr = Ok (root', m, F) -> m = false -> root' = root.
+Proof.
+  induction fuel as [|f IH]; intros root xs par parv fstr root' m F H Hm; [discriminate H|].
+  cbn [lfind] in H. unfold bind in H.
+  repeat (step_in H; try discriminate H).
+  all: try (inversion H; subst; reflexivity).
+  all: try (eapply IH; eassumption).
+  all: try (inversion H; subst; discriminate).
+Qed.
+
+(* the flag of a whole lookup *)
+Definition dict_lookup_mutates (fuel : nat) (root : tree) (x : pstr) (rl : bool) : bool :=
+  match find true rl fuel root (tokenize x) (PAt []) root s_root with
+  | Ok (_, m, _) => m
+  | _ => false
+  end.
+
+Theorem dict_get_core_pure fuel root x re rl dflt root' r :
+  dict_get_core fuel root x re rl dflt = Ok (root', r) ->
+  dict_lookup_mutates fuel root x rl = false -> root' = root.
+Proof.
+  unfold dict_get_core, dict_lookup_mutates. intros H Hm.
+  destruct (has_path_char x).
+  - destruct (find true rl fuel root (tokenize x) (PAt []) root s_root) as [[[r0 m] F]|e| |] eqn:E; try discriminate H.
+    + assert (r0 = root) by (eapply find_unmutated; eauto). subst.
+      destruct (rest_falsy (f_rest F)); [destruct (f_val F)|]; inversion H; reflexivity.
+    + destruct (funnelled e); inversion H; reflexivity.
+  - destruct root; try discriminate H. destruct (lookup x kvs); inversion H; reflexivity.
+Qed.
